@@ -64,9 +64,17 @@ def load_engines():
 
 
 def jobs_for(engines, prop):
+    """Jobs registered for a property. VERIF_ONLY_ENGINE / VERIF_ONLY_CONFIG restrict
+    them (development and sensitivity runs only; registered commands never set them)."""
     out = []
+    only_e = os.environ.get("VERIF_ONLY_ENGINE")
+    only_c = os.environ.get("VERIF_ONLY_CONFIG")
     for e in engines.values():
+        if only_e and e["engine"] != only_e:
+            continue
         for j in e.get("jobs", []):
+            if only_c and j.get("config", "clean") != only_c:
+                continue
             if j["property"] == prop:
                 jj = dict(j)
                 jj["engine"] = e["engine"]
